@@ -197,14 +197,19 @@ fn build_pipeline(
 
             let mut stages = Vec::new();
             if let Some(pipeline) = pipeline {
-                for stage in &pipeline.stages {
+                assert_eq!(
+                    pipeline.stages.len(),
+                    exported_source.stage_entry_points.len()
+                );
+                for (stage, entry_point) in pipeline
+                    .stages
+                    .iter()
+                    .zip(exported_source.stage_entry_points.iter())
+                {
                     stages.push(CompiledPipelineStage {
                         stage: stage.stage,
-                        // TODO: The entry point will probably be generated with the same name but it is not guaranteed
-                        entry_point: ir
-                            .function_registry
-                            .get_function_name(stage.entry_point)
-                            .to_string(),
+                        // The exporter may have renamed the function
+                        entry_point: entry_point.clone(),
                         thread_group_size: stage.thread_group_size,
                     });
                 }
